@@ -51,7 +51,8 @@ SPLIT = Stage(
         "thorough": [("MC_Split.tla", "MC_Split_greedy_t.cfg", "pass"), ("MC_Split.tla", "MC_Split_packedNew_t.cfg", "pass"),
                      ("MC_Split.tla", "MC_Split_generic1.cfg", "pass"),
                      ("MC_Split.tla", "MC_Split_packedOld.cfg", "fail"), ("MC_Split.tla", "MC_Split_generic.cfg", "fail")]},
-    parts={"quick": [("shapes", 6), ("random", 1), ("parse", 1), ("limit", 4)], "thorough": [("shapes", 8), ("random", 8), ("parse", 2), ("limit", 4)]},
+    parts={"quick": [("shapes", 6), ("random", 1), ("parse", 1), ("limit", 4), ("batch", 1)],
+           "thorough": [("shapes", 8), ("random", 8), ("parse", 2), ("limit", 4), ("batch", 2)]},
     trace=("Trace_Split.tla", "Trace_Split.cfg"),
     nontrivial=lambda e: e.get("ev") in ("Split", "Parse", "Sweep"),
 )
